@@ -562,6 +562,7 @@ type StoreObs struct {
 	Deltas int   `json:"deltas"` // entries in the write set
 	Stored []int `json:"stored"` // canonical ids of all slabs in the view
 	Reach  []int `json:"reach"`  // canonical ids of standalone slabs reached from the roots
+	Stale  []int `json:"stale"`  // canonical ids of slabs held in the read cache and NOT in the write set whose encoding differs from their register
 }
 
 func (w *World) rootSlabOf(h *Handle) atree.Slab {
@@ -611,7 +612,34 @@ func (w *World) Observe() ([]RootObs, StoreObs) {
 		so.Reach = append(so.Reach, id)
 	}
 	sort.Ints(so.Reach)
+	so.Stale = w.staleCacheEntries()
 	return roots, so
+}
+
+// staleCacheEntries: a slab object served from the read cache (not pending in the write set) must be what the
+// ledger holds under its identifier - an in-place change of a cached slab that was never stored would be
+// invisible to the next commit and to every other storage over the same ledger.
+func (w *World) staleCacheEntries() []int {
+	out := []int{}
+	deltas := atree.VerifDeltas(w.St)
+	for id, s := range atree.VerifCache(w.St) {
+		if _, dirty := deltas[id]; dirty {
+			continue
+		}
+		reg, has := w.Ledger.Regs[id]
+		if s == nil {
+			if has {
+				out = append(out, w.cid(id))
+			}
+			continue
+		}
+		b, err := atree.EncodeSlab(s, encMode())
+		if err != nil || !has || !bytes.Equal(b, reg) {
+			out = append(out, w.cid(id))
+		}
+	}
+	sort.Ints(out)
+	return out
 }
 
 // Reopen abandons the storage object and reopens every root by its root identifier over the ledger.
